@@ -732,6 +732,7 @@ def run_property(prop, tier, seed, jobs_n):
         json.dump(expected, open(exp_path, 'w'), indent=1, sort_keys=True)
     # fallback for units whose loop contracts could not be spliced / instrumented on this tree (the loop structure changed):
     # bounded counterexample search with the same harness; only a natively reproduced failure becomes a violation
+    pending_search = []
     for r in results:
         u = ctx.units[r['unit']]
         if not (u.get('loops') or u.get('loops_by_config')):
@@ -747,13 +748,22 @@ def run_property(prop, tier, seed, jobs_n):
                 ctx.lower_unit(u, r['config'], drop_loops=True)
             except Undecided:
                 continue
-        sr = run_obligation(ctx, u, ob, r['config'], tier, False, True, False, True)
-        if sr.get('status') == 'failed' and sr.get('trace_inputs'):
-            r.update(status='failed', failed_props=sr.get('failed_props'), trace_inputs=sr['trace_inputs'], cbmc_tail=sr.get('cbmc_tail'),
-                     search={'unwind': ob.get('search_unwind', 6), 'failed_checks': sr.get('failed_props'), 'loop_contracts_not_applicable': (why or '')[:300]},
-                     search_only=True)
-        else:
-            r.update(status='undecided', reason='loop contracts do not apply to this tree (%s); bounded search (unwind %s) found no failure' % ((why or '')[:200], ob.get('search_unwind', 6)))
+        pending_search.append((r, u, ob, why))
+    # (the searches run in parallel: a changed loop may send every obligation of a unit here)
+    with cf.ThreadPoolExecutor(max_workers=jobs_n) as ex:
+        futs = {ex.submit(run_obligation, ctx, u, ob, r['config'], tier, False, True, False, True): (r, ob, why) for r, u, ob, why in pending_search}
+        for f in cf.as_completed(futs):
+            r, ob, why = futs[f]
+            try:
+                sr = f.result()
+            except Exception as e:
+                sr = {'status': 'undecided', 'reason': 'driver exception %r' % e}
+            if sr.get('status') == 'failed' and sr.get('trace_inputs'):
+                r.update(status='failed', failed_props=sr.get('failed_props'), trace_inputs=sr['trace_inputs'], cbmc_tail=sr.get('cbmc_tail'),
+                         search={'unwind': ob.get('search_unwind', 6), 'failed_checks': sr.get('failed_props'), 'loop_contracts_not_applicable': (why or '')[:300]},
+                         search_only=True)
+            else:
+                r.update(status='undecided', reason='loop contracts do not apply to this tree (%s); bounded search (unwind %s) found no failure' % ((why or '')[:200], ob.get('search_unwind', 6)))
     # an obligation that fails ONLY by unwinding assertions has met a loop/recursion its bound was not written for (the code
     # gained a loop): that is not yet a verdict. The bounded search decides: a failing user-level check there is a violation
     # (replayed natively where the unit allows), nothing found is undecided.
